@@ -3,7 +3,6 @@ package main
 import (
 	"fmt"
 	"strings"
-	"time"
 
 	zed "github.com/brimdata/super"
 	"github.com/brimdata/super/compiler/ast/dag"
@@ -11,6 +10,7 @@ import (
 	"github.com/brimdata/super/pkg/field"
 	"github.com/brimdata/super/runtime/sam/expr"
 	"github.com/brimdata/super/zio/zsonio"
+	"github.com/brimdata/super/zson"
 	. "zvh/hx"
 )
 
@@ -129,14 +129,24 @@ func (lc *lakeCase) program(r *Rng) string {
 
 // checkLake compares the plan as analysed (raw PoolScan) with the optimized
 // plan at the given parallelism.
+// lakeMark journals which plan is about to run (set by lakeCase).
+var lakeMark = func(phase string) {}
+
 func checkLake(env *LakeEnv, lc *lakeCase, prog string, par int) (d *diff, a, b runOut, st ordState) {
+	lakeMark("unopt")
 	a = runLake(env, prog, planMode{})
 	if a.Err != nil {
 		return nil, a, b, st
 	}
+	lakeMark("opt")
 	b = runLake(env, prog, planMode{Optimize: true, Par: par})
 	if b.Err == errTimeout && !shrinking {
-		b = withWatchdog(10*time.Second, func() runOut { return runLake(env, prog, planMode{Optimize: true, Par: par}) })
+		b = confirmHang(func() runOut { return runLake(env, prog, planMode{}) },
+			func() runOut { return runLake(env, prog, planMode{Optimize: true, Par: par}) })
+	}
+	if b.Err == errRefUnstable {
+		a.Err, a.Stage = b.Err, "retime"
+		return nil, a, b, st
 	}
 	init := ordState{Class: clsSorted, Keys: []string{lc.KeyPath}, IDIntact: true}
 	if lc.Unique {
@@ -172,6 +182,12 @@ func mergeKeyCheck(env *LakeEnv, lc *lakeCase, final dag.Seq) (bad string) {
 		if !ok || strings.Join(this.Path, ".") != lc.KeyPath {
 			continue
 		}
+		if i+2 < len(final) {
+			if _, ok := final[i+2].(*dag.Sort); ok {
+				// the merged order is discarded by a full sort
+				continue
+			}
+		}
 		leg := sc.Paths[0]
 		scan, ok := leg[0].(*dag.SeqScan)
 		if !ok {
@@ -200,13 +216,20 @@ func mergeKeyCheck(env *LakeEnv, lc *lakeCase, final dag.Seq) (bad string) {
 		zctx := zed.NewContext()
 		zr := zsonio.NewReader(zctx, strings.NewReader(strings.Join(out, "\n")))
 		var vals []zed.Value
+		var kept []string
 		for {
 			v, err := zr.Read()
 			if err != nil || v == nil {
 				break
 			}
+			if v.IsError() {
+				// error values carry no key; where they land is not checked here
+				continue
+			}
 			vals = append(vals, v.Copy())
+			kept = append(kept, zson.FormatValue(*v))
 		}
+		out = kept
 		cmp := expr.NewComparator(true, expr.NewSortEvaluator(expr.NewDottedExpr(zctx, field.Path(this.Path)), order.Which(mg.Order))).WithMissingAsNull()
 		for j := 0; j+1 < len(vals); j++ {
 			if c := cmp.Compare(vals[j], vals[j+1]); c >= 0 {
@@ -293,7 +316,10 @@ func (c *c07) lakeCase(env *LakeEnv, lc *lakeCase, prog string, par int) {
 	if par > 1 {
 		tag = "lakepar"
 	}
-	c.mark(map[string]any{"oracle": tag, "phase": "run", "program": prog, "pool": lc, "par": par})
+	lakeMark = func(phase string) {
+		c.mark(map[string]any{"oracle": tag, "phase": phase, "program": prog, "pool": lc, "par": par})
+	}
+	defer func() { lakeMark = func(string) {} }()
 	d, a, b, st := checkLake(env, lc, prog, par)
 	if a.Err != nil {
 		res.Count(tag + ":skipped-unopt-" + errClass(a.Err) + "-" + a.Stage)
@@ -305,7 +331,8 @@ func (c *c07) lakeCase(env *LakeEnv, lc *lakeCase, prog string, par int) {
 	if len(a.Out) > 0 && changed && st.Class != clsAmb {
 		c.distinct(fmt.Sprintf("%s|%s|%s|par%d", tag, opKinds(a.Analysed), lc.layout(), par))
 	}
-	if par > 1 && b.Err == nil {
+	if par > 1 && b.Err == nil && st.Class == clsSeq {
+		// only where the program defines the whole output sequence
 		if bad := mergeKeyCheck(env, lc, b.Final); bad != "" && d == nil {
 			d = &diff{"merge-key-destroyed", "values reaching `merge " + lc.KeyPath + "` keep the distinct pool keys of the sequential scan order", bad}
 		}
@@ -332,6 +359,10 @@ func (c *c07) lakeCase(env *LakeEnv, lc *lakeCase, prog string, par int) {
 	oracle := "lake-opt"
 	if par > 1 {
 		oracle = "lake-parallel"
+	}
+	if lc.Mixed {
+		// the pool holds null, typed null, missing or mixed-type keys
+		oracle += "[nullish-keys]"
 	}
 	res.Fail(Failure{
 		Kind: "oracle",
